@@ -1,3 +1,4 @@
+import Rpcx.Basic
 import Rpcx.Model.Atomic
 import Rpcx.Model.Shutdown
 /-
@@ -222,7 +223,8 @@ example : let s := run init [.read 0, .start 0, .sdBegin, .sdPoll, .write 0, .fi
 
 /-! ### the model's steps are the code's critical sections / statement order (regenerated facts) -/
 
-theorem tie_atomic : Gen.atomicTieOk = true := by decide
+theorem tie_atomic : Rpcx.tieItem Gen.atomicTie "atomic:server.Server.Shutdown" = true ∧ Rpcx.tieItem Gen.atomicTie "atomic:server.Server.Close" = true
+    ∧ Rpcx.tieItem Gen.atomicTie "atomic:server.Server.processOneRequest" = true := by decide
 
 /-- `closeConns` + `closeDone` of Shutdown are one critical section, and so is all of `Close` -/
 theorem tie_shutdown_final_atomic :
